@@ -228,6 +228,7 @@ def make_function(world, fid, sig, kind='func', is_mw=False, meta=None):
 
 
 _MW_CLASSES = {}
+_MW_BASE_FLAGS = {0: (True, True), 2: (True, True), 4: (False, True)}     # must agree with gen_config.TYPES
 
 
 def mw_class(tid, unique, reorderable):
@@ -235,8 +236,12 @@ def mw_class(tid, unique, reorderable):
     from clastic import Middleware
     key = tid
     if key not in _MW_CLASSES:
+        # odd type ids derive from the preceding even one: a subclass is a *different* middleware type
+        base = Middleware
+        if tid % 2 == 1 and (tid - 1) in _MW_BASE_FLAGS:
+            base = mw_class(tid - 1, *_MW_BASE_FLAGS[tid - 1])
         _MW_CLASSES[key] = type('MW%d%s%s' % (tid, 'u' if unique else 'n', '' if reorderable else 'x'),
-                                (Middleware,), {'unique': unique, 'reorderable': reorderable})
+                                (base,), {'unique': unique, 'reorderable': reorderable})
     return _MW_CLASSES[key]
 
 
